@@ -136,3 +136,36 @@ package container
 //@ ensures [failure-recorded] Failed == (old(Failed) || result != nil)
 //@ ensures [no-runner] RanLen == old(RanLen) && RanAt == old(RanAt) && RanSrc == old(RanSrc)
 //@ ensures [refreshed-iff-ok] Refreshed == (old(Refreshed) || result == nil)
+
+// ---- component lifecycle (C05): ghost typestate per component name -------------------------------------------------
+//   St[name]: 0 new, 1 populated, 2 before-initialization processors done, 3 AfterPropertiesSet done, 4 Init done,
+//             5 init methods done, 6 ready (after-initialization processors done)
+//   BeforeLen/BeforeAt, AfterLen/AfterAt: per name, the sequence of post-processors whose Before/After callback ran
+//   ApsCalls / InitCalls: per name, how often AfterPropertiesSet / Init ran
+//   CurName: the name of the component whose init method is being invoked (set by the container right before the call)
+//@ ghost var St map[string]int
+//@ ghost var BeforeLen map[string]int
+//@ ghost var BeforeAt map[string]map[int]ComponentPostProcessor
+//@ ghost var AfterLen map[string]int
+//@ ghost var AfterAt map[string]map[int]ComponentPostProcessor
+//@ ghost var ApsCalls map[string]int
+//@ ghost var InitCalls map[string]int
+//@ ghost var CurName string
+
+// What the container owes a post-processor (requires) and what the call does to the trace (ensures).
+// A-CALLBACK: post-processors return a non-nil component when they succeed and do not write container-internal state.
+//@ method (ComponentPostProcessor).PostProcessBeforeInitialization
+//@ property C05 C09
+//@ requires [populate-before-initialize] St[componentName] == 1
+//@ assigns BeforeLen, BeforeAt, Failed
+//@ ensures [before-traced] BeforeLen == store(old(BeforeLen), componentName, old(BeforeLen[componentName]) + 1) && BeforeAt == store(old(BeforeAt), componentName, store(old(BeforeAt[componentName]), old(BeforeLen[componentName]), self))
+//@ ensures [returns-component] implies(result1 == nil, result0 != nil)
+//@ ensures [failure-recorded] Failed == (old(Failed) || result1 != nil)
+
+//@ method (ComponentPostProcessor).PostProcessAfterInitialization
+//@ property C05 C09
+//@ requires [init-methods-before-after-processors] St[componentName] == 5
+//@ assigns AfterLen, AfterAt, Failed
+//@ ensures [after-traced] AfterLen == store(old(AfterLen), componentName, old(AfterLen[componentName]) + 1) && AfterAt == store(old(AfterAt), componentName, store(old(AfterAt[componentName]), old(AfterLen[componentName]), self))
+//@ ensures [returns-component] implies(result1 == nil, result0 != nil)
+//@ ensures [failure-recorded] Failed == (old(Failed) || result1 != nil)
